@@ -131,6 +131,7 @@ type npCtx struct {
 	used  []string
 	use   ssa.Instruction
 	depth int
+	fx    *Facts
 }
 
 // atomTerm: term with impure call results and phis tagged by SSA name, so that
@@ -237,8 +238,67 @@ func (n *npCtx) addLe(a, b lin) {
 	n.add(as, bs, b.k-a.k)
 }
 
-// proves a <= b ?
+// provesLe with induction over phi edges: a phi is ≤ B (≥ A) if every edge is,
+// in the context of its predecessor block, assuming the phi itself is.
 func (n *npCtx) provesLe(a, b lin) bool {
+	if n.provesLeDirect(a, b) {
+		return true
+	}
+	if n.depth > 3 || n.use == nil {
+		return false
+	}
+	try := func(p *ssa.Phi, upper bool) bool {
+		psym := a.sym
+		if !upper {
+			psym = b.sym
+		}
+		for i, e := range p.Edges {
+			pred := p.Block().Preds[i]
+			m, _ := n.c.npAtEdge(pred, p.Block(), n.fx)
+			m.depth = n.depth + 1
+			m.fx = n.fx
+			le := m.linOf(e)
+			// inductive hypothesis: the bound holds for the phi's current value
+			if upper {
+				m.addLe(a, b)
+			} else {
+				m.addLe(a, b)
+			}
+			m.searchAxioms()
+			if upper {
+				if m.provesLeDirect(lin{le.sym, le.k + a.k}, b) {
+					continue
+				}
+				if le.sym != psym && m.provesLe(lin{le.sym, le.k + a.k}, b) {
+					continue
+				}
+				return false
+			}
+			if m.provesLeDirect(a, lin{le.sym, le.k + b.k}) {
+				continue
+			}
+			if le.sym != psym && m.provesLe(a, lin{le.sym, le.k + b.k}) {
+				continue
+			}
+			return false
+		}
+		return true
+	}
+	if p, ok := n.atoms[a.sym].(*ssa.Phi); ok && a.sym != "" {
+		if try(p, true) {
+			return true
+		}
+	}
+	if p, ok := n.atoms[b.sym].(*ssa.Phi); ok && b.sym != "" {
+		if try(p, false) {
+			return true
+		}
+	}
+	return false
+}
+
+// proves a <= b from the constraint graph alone
+func (n *npCtx) provesLeDirect(a, b lin) bool {
 	as, bs := a.sym, b.sym
 	if as == "" {
 		as = "0"
@@ -871,7 +931,7 @@ func (c *Ctx) factClobbered(f DomFact, use ssa.Instruction, fx *Facts) bool {
 // npAt builds the constraint context for a use site from the plain
 // (non-disjunctive) dominating facts plus the extra assumptions given.
 func (c *Ctx) npAtWith(use ssa.Instruction, fx *Facts, extra []DomFact) (*npCtx, []DomFact) {
-	n := &npCtx{c: c, fn: use.Parent(), edges: map[string]map[string]int64{}, atoms: map[string]ssa.Value{}, use: use}
+	n := &npCtx{c: c, fn: use.Parent(), edges: map[string]map[string]int64{}, atoms: map[string]ssa.Value{}, use: use, fx: fx}
 	facts := c.domFacts(use.Block())
 	var live []DomFact
 	for _, f := range facts {
@@ -1455,4 +1515,18 @@ func (n *npCtx) constUpper(v lin) (int64, bool) {
 		return d + v.k, true
 	}
 	return 0, false
+}
+
+// npAtEdge: constraint context for control flowing along pred→succ.
+func (c *Ctx) npAtEdge(pred, succ *ssa.BasicBlock, fx *Facts) (*npCtx, []DomFact) {
+	last := pred.Instrs[len(pred.Instrs)-1]
+	var extra []DomFact
+	if iff, ok := last.(*ssa.If); ok && pred.Succs[0] != pred.Succs[1] {
+		for si, s := range pred.Succs {
+			if s == succ {
+				extra = append(extra, DomFact{Cond: iff.Cond, Pos: si == 0})
+			}
+		}
+	}
+	return c.npAtWith(last, fx, extra)
 }
